@@ -10,7 +10,10 @@
                                                  | ok <T/name,..|-> / err <kind>  log=.. ft=.. fast=.. tv=..
     A <perm> <types>                             | <granted> <bits>
     H <q|m|d|a:action> <Type> [n=name] [p=a,b] [f=<filter>] [j]   | <status> <T/name,..|-> jn=.. ft=.. fast=..
-    G <templates|variables|types|status|console>        | <status> <count>
+    G <templates|variables|types|status|console|cfgpackages|cfgcreate|debug|act:<typeless action>>   | <status> <count> [inv=..] [chg=..]
+    H c <Type> n=<name> k=<mask>                 | <status> - cr=<created> nt=<filter values on the new object> ex=<existed>
+    (H m: additionally ch=<changed objects of the whole inventory>; H a:<any action>: ty=<registered types>)
+    X <Type> <name>                              | ok <T/name> / none        the by-name lookup of execute-command
     K <users> / B <header hex> | <user|none|throw> dec=.. / N <cn hex> | <user|none>       authentication
   Output lines:
     MISMATCH line=<n> case=<k> what=<result|grant|access|http|join|handler> impl=<...> model=<...>
@@ -215,6 +218,16 @@ structure DSt where
   h404 : Nat := 0
   hActions : Nat := 0
   hDeletes : Nat := 0
+  nCreate : Nat := 0
+  nCreated : Nat := 0
+  nCreateFilteredOnly : Nat := 0   -- created through a match all of whose matching entries carry a filter (F-C18b class)
+  nLookup : Nat := 0
+  nLookupOk : Nat := 0
+  nLookupDenied : Nat := 0        -- the named object exists but the lookup refused it
+  nChanged : Nat := 0             -- modify requests whose changed-object set was checked
+  nChangedNonEmpty : Nat := 0
+  hOtherActions : Nat := 0        -- dispatched actions other than reschedule-check / remove-acknowledgement
+  nBare : Nat := 0                -- bare CheckPermission handlers (console, config, debug, typeless actions)
   nG : Nat := 0
   g200 : Nat := 0
   gCompared : Nat := 0
@@ -462,7 +475,10 @@ def handleH (d : DSt) (n : Nat) (pre post : List String) : IO DSt := do
         | some v => [("Service", dec v)]
         | none => []
       let q0 : Query := { single := svcName, plural := plural, filter := uf }
-      let qd := if isAction then actionQD verb else handlerQD verb type
+      let actTypes : List String := match kvOf kvs "ty" with
+        | some v => splitC (if v == "-" then "" else v) ","
+        | none => ["Host", "Service"]
+      let qd := if isAction then actionQDT verb actTypes else handlerQD verb type
       let q := if isAction then actionQuery type pathName q0 else handlerQuery type pathName q0
       let mres := (filterTargetsWith d.sharedFrame d.user qd q d.inv).result
       let withResults := istatus == 200 || (verb == "delete" && istatus == 500)
@@ -535,7 +551,26 @@ def handleH (d : DSt) (n : Nat) (pre post : List String) : IO DSt := do
         | _ =>
           IO.println s!"BADLINE line={n}"
           d := { d with badlines := d.badlines + 1 }
+      -- modify: the objects that were CHANGED, read off the whole inventory
+      if verb == "modify" then
+        match (kvOf kvs "ch").bind parseObjs with
+        | some changed =>
+          d := { d with nChanged := d.nChanged + 1, nChangedNonEmpty := d.nChangedNonEmpty + (if changed.isEmpty then 0 else 1) }
+          let showSet (l : List Obj) : String := let x := sortStrs (l.eraseDups.map showObj); if x.isEmpty then "-" else ",".intercalate x
+          let mchanged := modifyChanged d.user type pathName q0 d.inv
+          if ishow == mshow && showSet changed != showSet mchanged then
+            IO.println s!"MISMATCH line={n} case={d.caseNo} what=changed impl={showSet changed} model={showSet mchanged}"
+            d := { d with mismatches := d.mismatches + 1 }
+          match specChanged d.user qd.permission changed with
+          | some cl =>
+            IO.println s!"SPECFAIL line={n} case={d.caseNo} clause={cl.name}"
+            d := { d with specfails := d.specfails + 1 }
+          | none => pure ()
+        | none =>
+          IO.println s!"BADLINE line={n}"
+          d := { d with badlines := d.badlines + 1 }
       if withResults then d := { d with h200 := d.h200 + 1 } else d := { d with h404 := d.h404 + 1 }
+      if isAction && verb != "reschedule-check" && verb != "remove-acknowledgement" then d := { d with hOtherActions := d.hOtherActions + 1 }
       if isAction then d := { d with hActions := d.hActions + 1 }
       if verb == "delete" then d := { d with hDeletes := d.hDeletes + 1 }
       if wantJoin then
@@ -549,6 +584,82 @@ def handleH (d : DSt) (n : Nat) (pre post : List String) : IO DSt := do
     | _, _, _, _ => bad d n
   | _, _ => bad d n
 
+/-- the user with every filter replaced by its value on ONE object that is not part of the inventory (the object a
+    create request brought into being): `nt` has one character per entry, `-` for an entry without filter -/
+def userOn (u : User) (nt : String) : Option User :=
+  let cs := nt.toList.drop 1    -- the harness writes a leading `.`
+  if cs.length != u.length then none else
+  some ((u.zip cs).map fun (p, c) =>
+    { pattern := p.pattern,
+      filter := p.filter.map fun _ => fun _ _ => if c == '1' then some true else if c == '0' then some false else none })
+
+def handleCreate (d : DSt) (n : Nat) (pre post : List String) : IO DSt := do
+  match pre, post with
+  | _ :: _ :: type :: toks, status :: _ :: kvs =>
+    match (kvOf toks "n").map dec, parseNat? status, kvOf kvs "cr", kvOf kvs "nt", kvOf kvs "ex" with
+    | some name, some istatus, some cr, some nt, some ex =>
+      let created := cr == "1"
+      let o : Obj := { type := type, name := name }
+      let perm := "objects/create/" ++ type
+      let mut d := { d with steps := d.steps + 1, nH := d.nH + 1, nCreate := d.nCreate + 1,
+                            nCreated := d.nCreated + (if created then 1 else 0),
+                            caseHash := mixHash d.caseHash (hash (" ".intercalate pre)) }
+      -- model: refused (404, nothing created) without a matching entry; otherwise created unless the name is taken
+      let granted := createGranted d.user type
+      let mcreated := granted && ex != "1"
+      if created != mcreated || (istatus == 404) != !granted then
+        IO.println s!"MISMATCH line={n} case={d.caseNo} what=create impl={istatus}:{cr} model={if granted then "granted" else "404"}:{showBool mcreated}"
+        d := { d with mismatches := d.mismatches + 1 }
+      if created then
+        match userOn d.user nt with
+        | some u' =>
+          if someMatch d.user perm && (d.user.filter (permMatches perm)).all (·.filter.isSome) then
+            d := { d with nCreateFilteredOnly := d.nCreateFilteredOnly + 1 }
+          match specCreate u' type o true with
+          | some cl =>
+            IO.println s!"SPECFAIL line={n} case={d.caseNo} clause={cl.name}"
+            d := { d with specfails := d.specfails + 1 }
+          | none => pure ()
+        | none =>
+          IO.println s!"BADLINE line={n}"
+          d := { d with badlines := d.badlines + 1 }
+      return d
+    | _, _, _, _, _ => bad d n
+  | _, _ => bad d n
+
+def handleX (d : DSt) (n : Nat) (pre post : List String) : IO DSt := do
+  match pre with
+  | [_, type, name] =>
+    let name := dec name
+    let ires : Option (Option Obj) := match post with
+      | ["none"] => some none
+      | ["ok", v] => match v.splitOn "/" with
+        | t :: rest => if rest.isEmpty then none else some (some { type := t, name := dec ("/".intercalate rest) })
+        | _ => none
+      | _ => none
+    match ires with
+    | some ires =>
+      let m := lookupByPermission d.user type name d.inv
+      let mut d := { d with steps := d.steps + 1, nLookup := d.nLookup + 1, nLookupOk := d.nLookupOk + (if ires.isSome then 1 else 0),
+                            caseHash := mixHash d.caseHash (hash (" ".intercalate pre)) }
+      if ires.isNone && (lookup d.inv type name).isSome && someMatch d.user ("objects/query/" ++ type) then
+        d := { d with nLookupDenied := d.nLookupDenied + 1, caseNontrivial := true }
+      if ires != m then
+        let sh (x : Option Obj) : String := match x with | some o => showObj o | none => "none"
+        if agreesUnderSomeOrder d.user d.userRaises (fun u' => lookupByPermission u' type name d.inv == ires) then
+          d := { d with orderTolerated := d.orderTolerated + 1 }
+        else
+          IO.println s!"MISMATCH line={n} case={d.caseNo} what=lookup impl={sh ires} model={sh m}"
+          d := { d with mismatches := d.mismatches + 1 }
+      match specLookup d.user type name d.inv ires with
+      | some cl =>
+        IO.println s!"SPECFAIL line={n} case={d.caseNo} clause={cl.name}"
+        d := { d with specfails := d.specfails + 1 }
+      | none => pure ()
+      return d
+    | none => bad d n
+  | _ => bad d n
+
 def handleG (d : DSt) (n : Nat) (pre post : List String) : IO DSt := do
   match pre, post with
   | [_, kind], status :: _ =>
@@ -557,13 +668,16 @@ def handleG (d : DSt) (n : Nat) (pre post : List String) : IO DSt := do
       let mut d := { d with steps := d.steps + 1, nG := d.nG + 1, g200 := d.g200 + (if istatus == 200 then 1 else 0) }
       -- with a filtered matching entry the status depends on evaluating the DSL on targets this model does
       -- not describe (dictionaries, types); the console handler ignores filters altogether
-      let comparable := kind == "console" || (permissionFilters d.user perm).isEmpty || !hasPermission d.user perm
+      let comparable := bareCheck kind || (permissionFilters d.user perm).isEmpty || !hasPermission d.user perm
+      if bareCheck kind then d := { d with nBare := d.nBare + 1 }
+      -- the callback of a typeless action ran / the config package exists afterwards: the request was carried out
+      let effect := (kvOf post "inv") == some "1" || (kvOf post "chg") == some "1"
       if comparable then
         d := { d with gCompared := d.gCompared + 1 }
-        if istatus != grantStatus d.user perm then
-          IO.println s!"MISMATCH line={n} case={d.caseNo} what=handler impl={istatus} model={grantStatus d.user perm}"
+        if istatus != grantStatus d.user perm || ((kvOf post "inv").isSome || (kvOf post "chg").isSome) && effect != (grantStatus d.user perm == 200) then
+          IO.println s!"MISMATCH line={n} case={d.caseNo} what=handler impl={istatus}:{showBool effect} model={grantStatus d.user perm}"
           d := { d with mismatches := d.mismatches + 1 }
-      match specGrant d.user perm (istatus == 200) with
+      match specGrant d.user perm (istatus == 200 || effect) with
       | some cl =>
         IO.println s!"SPECFAIL line={n} case={d.caseNo} clause={cl.name}"
         d := { d with specfails := d.specfails + 1 }
@@ -667,7 +781,9 @@ def handle (d : DSt) (n : Nat) (line : String) : IO DSt := do
     handleP d n pre post
   | "Q" :: _ => handleQ d n pre post
   | "A" :: _ => handleA d n pre post
+  | "H" :: "c" :: _ => handleCreate d n pre post
   | "H" :: _ => handleH d n pre post
+  | "X" :: _ => handleX d n pre post
   | "G" :: _ => handleG d n pre post
   | "K" :: _ => handleAuth d n pre post
   | "B" :: _ => handleAuth d n pre post
@@ -679,4 +795,4 @@ def main : IO Unit := do
   let shared := (← IO.getEnv "VERIF_C18_SHARED_FRAME") == some "1"
   let d ← foldLines stdin handle ({ sharedFrame := shared } : DSt)
   let d := closeCase d
-  IO.println s!"STATS cases={d.caseNo} steps={d.steps} matches={d.nM} matches_granted={d.nMgranted} queries={d.nQ} access={d.nA} http={d.nH} http_200={d.h200} http_404={d.h404} http_actions={d.hActions} http_deletes={d.hDeletes} auth={d.nAuth} auth_attributed={d.nAuthOk} handlers={d.nG} handlers_200={d.g200} handlers_compared={d.gCompared} join_shown={d.hJoinShown} join_hidden={d.hJoinHidden} order_pairs={d.orderPairs} or_order_tolerated={d.orderTolerated} service_reading_two_type_named={d.readsServiceQueries} order_pairs_filtered={d.orderPairsMixed} ok_nonempty={d.okNonEmpty} ok_empty={d.okEmpty} err_perm={d.errPerm} err_denied={d.errDenied} err_notfound={d.errNotFound} err_type={d.errType} err_other={d.errOther} path_single={d.pathSingle} path_plural={d.pathPlural} path_filter_eval={d.pathFilterEval} path_fast={d.pathFast} path_all={d.pathAll} perm_filtered={d.permFiltered} multi_match={d.multiMatch} mixed_match={d.mixedMatch} filtered_out={d.filteredOut} nontrivial={d.nontrivial} mismatches={d.mismatches} specfails={d.specfails} badlines={d.badlines}"
+  IO.println s!"STATS cases={d.caseNo} steps={d.steps} matches={d.nM} matches_granted={d.nMgranted} queries={d.nQ} access={d.nA} http={d.nH} http_200={d.h200} http_404={d.h404} http_actions={d.hActions} http_deletes={d.hDeletes} auth={d.nAuth} auth_attributed={d.nAuthOk} creates={d.nCreate} created={d.nCreated} created_filtered_only={d.nCreateFilteredOnly} lookups={d.nLookup} lookups_ok={d.nLookupOk} lookups_denied={d.nLookupDenied} modify_changed_checked={d.nChanged} modify_changed_nonempty={d.nChangedNonEmpty} http_other_actions={d.hOtherActions} bare_checks={d.nBare} handlers={d.nG} handlers_200={d.g200} handlers_compared={d.gCompared} join_shown={d.hJoinShown} join_hidden={d.hJoinHidden} order_pairs={d.orderPairs} or_order_tolerated={d.orderTolerated} service_reading_two_type_named={d.readsServiceQueries} order_pairs_filtered={d.orderPairsMixed} ok_nonempty={d.okNonEmpty} ok_empty={d.okEmpty} err_perm={d.errPerm} err_denied={d.errDenied} err_notfound={d.errNotFound} err_type={d.errType} err_other={d.errOther} path_single={d.pathSingle} path_plural={d.pathPlural} path_filter_eval={d.pathFilterEval} path_fast={d.pathFast} path_all={d.pathAll} perm_filtered={d.permFiltered} multi_match={d.multiMatch} mixed_match={d.mixedMatch} filtered_out={d.filteredOut} nontrivial={d.nontrivial} mismatches={d.mismatches} specfails={d.specfails} badlines={d.badlines}"
